@@ -25,7 +25,7 @@ theorem good_waitRoom {cap : Cap} (p : Pool) (m) (hg : Good cap p) (hl : p.sem.l
     split <;> simp_all [grantsL, List.countP_append, schedMeta, emitRef, modReq]
   obtain ⟨f1, f2, f3, f4, f5, f6, f7, f8⟩ := facts
   refine ⟨?_, fun i tk h hn => hg.phase i tk (by rw [← f3]; exact h) hn, hg.reg.of_eq f3 f4 f5 f6 f7,
-    hg.grp.of_eq f8 (by rw [f3])⟩
+    hg.grp.of_eq f8 (by rw [f3]), hg.life.of_eq f3 f7⟩
   cases cap with
   | fin n =>
     obtain ⟨v, hv, hs⟩ := hg.slot
@@ -83,10 +83,23 @@ theorem _root_.Taskpool.GroupsOK.create {p : Pool} (hr : GroupsOK p) (g : String
 
 /-- appending a fresh task in phase `created` -/
 theorem good_createTask_afterTake {cap : Cap} (p : Pool) (m : Nat) (isMap : Bool)
-    (hph : PhaseOK p) (hreg : RegOK p) (hgrp : GroupsOK p) (hpre : SlotPre cap p) : Good cap (p.createTask m isMap) := by
+    (hph : PhaseOK p) (hreg : RegOK p) (hgrp : GroupsOK p) (hlife : LifeOK p) (hpre : SlotPre cap p) :
+    Good cap (p.createTask m isMap) := by
   unfold createTask
   simp only
-  refine ⟨?_, ?_, hreg.create _ rfl _ rfl rfl rfl rfl rfl, hgrp.create _ _ _ rfl rfl⟩
+  refine ⟨?_, ?_, hreg.create _ rfl _ rfl rfl rfl rfl rfl, hgrp.create _ _ _ rfl rfl, ?_⟩
+  rotate_left 2
+  · intro i tk' h
+    simp only [emitRef_tasks, modReq_tasks] at h
+    rw [List.getElem?_append] at h
+    split at h
+    · exact hlife i tk' h
+    · rename_i hge
+      rcases Nat.lt_or_ge (i - p.tasks.length) 1 with hlt | hge1
+      · have : i - p.tasks.length = 0 := by omega
+        rw [this] at h; simp at h; subst h
+        exact oks_new _ _ _ _ rfl
+      · rw [List.getElem?_eq_none (by simpa using hge1)] at h; cases h
   · cases cap with
     | fin n =>
       obtain ⟨v, hv, hs⟩ := hpre
@@ -109,7 +122,7 @@ theorem good_takeSlotAndCreate {cap : Cap} (p : Pool) (m : Nat) (isMap : Bool) (
     (hl : p.sem.locked = false) : Good cap (p.takeSlotAndCreate m isMap) := by
   unfold takeSlotAndCreate
   refine good_createTask_afterTake _ m isMap (fun i tk h hn => hg.phase i tk h hn)
-    (hg.reg.of_eq rfl rfl rfl rfl rfl) (hg.grp.of_eq rfl rfl) ?_
+    (hg.reg.of_eq rfl rfl rfl rfl rfl) (hg.grp.of_eq rfl rfl) (hg.life.of_eq rfl rfl) ?_
   cases cap with
   | fin n =>
     obtain ⟨v, hv, hs⟩ := hg.slot
